@@ -68,6 +68,7 @@ type c13Env struct {
 	dnames  map[string]string // denom -> Coq variable
 	hold    func(ctx sdk.Context, addr sdk.AccAddress, amt sdk.Coins) error
 	initGen func(ctx sdk.Context, gs *exchange.GenesisState) error
+	lookupExt func(ctx sdk.Context, market uint32, ext string) (*exchange.Order, error)
 }
 
 // ---- denoms ----
@@ -235,6 +236,29 @@ func (e *c13Env) entriesTerm(es []exchange.AccountAmount) string {
 }
 
 var c13ExtPool = []string{"x", "y", "x1", "zz", "xy"}
+
+// Non-ASCII external ids.  MaxExternalIDLength (100) is a limit in BYTES (ValidateExternalID, and
+// the guard of GetOrderByExternalID): ids of multi-byte UTF-8 characters at 99 / 100 / 101 bytes and
+// characters, ids that are byte prefixes of one another ("é" = C3 A9; "\xc3" alone is not valid
+// UTF-8), invalid UTF-8.  c13MBLegal are at most 100 bytes, c13MBOver are longer in bytes (some of
+// them have at most 100 CHARACTERS).
+var c13MBLegal = []string{
+	"é", "éa", "é字", "\xc3", "\xff\xfe\x80", "字",
+	strings.Repeat("é", 49) + "a", // 99 bytes, 50 characters
+	strings.Repeat("é", 50),       // 100 bytes, 50 characters
+	strings.Repeat("字", 33),       // 99 bytes, 33 characters
+	strings.Repeat("字", 33) + "a", // 100 bytes, 34 characters
+	strings.Repeat("a", 98) + "é", // 100 bytes, 99 characters
+}
+var c13MBOver = []string{
+	strings.Repeat("é", 50) + "a",  // 101 bytes, 51 characters
+	strings.Repeat("é", 51),        // 102 bytes, 51 characters
+	strings.Repeat("字", 34),        // 102 bytes, 34 characters
+	strings.Repeat("a", 99) + "é",  // 101 bytes, 100 characters
+	strings.Repeat("字", 100),       // 300 bytes, 100 characters
+	strings.Repeat("字", 101),       // 303 bytes, 101 characters
+	strings.Repeat("é", 60),        // 120 bytes, 60 characters
+}
 
 func (e *c13Env) addrVar(bech string) string {
 	if bech == "" {
@@ -583,8 +607,9 @@ func (e *c13Env) observe(ctx sdk.Context, maxID uint64, extra *int) (string, c13
 	for _, d := range e.probeDenoms() {
 		as = append(as, fmt.Sprintf("(%s, %s)", e.denomTerm(d), c13Ids(list(c13Endpoint{kind: "asset", denom: d}))))
 	}
+	probedExt := map[string]bool{}
 	for _, m := range e.markets {
-		for _, x := range append(append([]string{}, c13ExtPool...), strings.Repeat("h", 100), strings.Repeat("f", 100)) {
+		for _, x := range append(append([]string{}, c13ExtPool...), strings.Repeat("h", 100), strings.Repeat("f", 100), "é", strings.Repeat("é", 50), strings.Repeat("é", 51)) {
 			var id uint64
 			okk := false
 			_ = try(func() error {
@@ -599,7 +624,40 @@ func (e *c13Env) observe(ctx sdk.Context, maxID uint64, extra *int) (string, c13
 				return err
 			})
 			ex = append(ex, fmt.Sprintf("(%d, %s, %s)", m, c13Str(x), coqOpt(okk, c13U(id))))
+			probedExt[fmt.Sprintf("%d|%s", m, x)] = true
 		}
+	}
+	// ... and the external id of every open order in its own market (whatever bytes it has), by the
+	// gRPC query and by the keeper's lookup, which must agree
+	for _, o := range view.orders {
+		key := fmt.Sprintf("%d|%s", o.market, o.ext)
+		if o.ext == "" || probedExt[key] {
+			continue
+		}
+		probedExt[key] = true
+		var id uint64
+		okk := false
+		_ = try(func() error {
+			r, err := e.qs.GetOrderByExternalID(ctx, &exchange.QueryGetOrderByExternalIDRequest{MarketId: o.market, ExternalId: o.ext})
+			if err == nil && r.Order != nil {
+				id, okk = r.Order.OrderId, true
+			}
+			return err
+		})
+		var kid uint64
+		kok := false
+		_ = try(func() error {
+			ko, err := e.lookupExt(ctx, o.market, o.ext)
+			if err == nil && ko != nil {
+				kid, kok = ko.OrderId, true
+			}
+			return err
+		})
+		if kok != okk || kid != id {
+			mism++
+		}
+		ex = append(ex, fmt.Sprintf("(%d, %s, %s)", o.market, c13Str(o.ext), coqOpt(okk, c13U(id))))
+		e.w.Count("own_external_id_probes")
 	}
 	// payments
 	pall := e.callPage(ctx, c13Endpoint{kind: "payall"}, "", 0, big)
@@ -611,6 +669,7 @@ func (e *c13Env) observe(ctx sdk.Context, maxID uint64, extra *int) (string, c13
 		ps = append(ps, fmt.Sprintf("(%s, %s)", e.addrVar(a.String()), e.paysTerm(e.callPage(ctx, c13Endpoint{kind: "paysrc", addr: e.respell(a.String())}, "", 0, big).pays)))
 		pt = append(pt, fmt.Sprintf("(%s, %s)", e.addrVar(a.String()), e.paysTerm(e.callPage(ctx, c13Endpoint{kind: "paytgt", addr: e.respell(a.String())}, "", 0, big).pays)))
 	}
+	probedPay := map[string]bool{}
 	for _, a := range e.owners {
 		for _, x := range append([]string{""}, c13ExtPool[:3]...) {
 			var p *exchange.Payment
@@ -626,7 +685,27 @@ func (e *c13Env) observe(ctx sdk.Context, maxID uint64, extra *int) (string, c13
 				v = e.payTerm(c13ProjectPay(p))
 			}
 			pgs = append(pgs, fmt.Sprintf("(%s, %s, %s)", e.addrVar(a.String()), c13Str(x), coqOpt(err == nil && p != nil, v)))
+			probedPay[a.String()+"|"+x] = true
 		}
+	}
+	for _, q := range view.pays {
+		if probedPay[q.src+"|"+q.ext] {
+			continue
+		}
+		probedPay[q.src+"|"+q.ext] = true
+		var p *exchange.Payment
+		err := try(func() error {
+			r, err := e.qs.GetPayment(ctx, &exchange.QueryGetPaymentRequest{Source: e.respell(q.src), ExternalId: q.ext})
+			if err == nil {
+				p = r.Payment
+			}
+			return err
+		})
+		v := ""
+		if err == nil && p != nil {
+			v = e.payTerm(c13ProjectPay(p))
+		}
+		pgs = append(pgs, fmt.Sprintf("(%s, %s, %s)", e.addrVar(q.src), c13Str(q.ext), coqOpt(err == nil && p != nil, v)))
 	}
 	j := func(l []string) string { return "[" + strings.Join(l, "; ") + "]" }
 	// markets: the listing, and every listed market fetched by id (its name carries the tag
@@ -989,6 +1068,9 @@ func TestC13(t *testing.T) {
 	e.hold = func(ctx sdk.Context, addr sdk.AccAddress, amt sdk.Coins) error {
 		return app.HoldKeeper.AddHold(ctx, addr, amt, "c13 genesis")
 	}
+	e.lookupExt = func(ctx sdk.Context, market uint32, ext string) (*exchange.Order, error) {
+		return app.ExchangeKeeper.GetOrderByExternalID(ctx, market, ext)
+	}
 	e.initGen = func(ctx sdk.Context, gs *exchange.GenesisState) error {
 		return try(func() error {
 			if err := gs.Validate(); err != nil {
@@ -1040,6 +1122,15 @@ func TestC13(t *testing.T) {
 		}
 		if hi%3 == 2 {
 			e.forced = append(e.forced, "pay-up-source")
+		}
+		// non-ASCII external ids around the 100-BYTE limit, through create and set-external-id
+		switch hi % 3 {
+		case 0:
+			e.forced = append(e.forced, "create-ext-mb-over", "setext-mb")
+		case 1:
+			e.forced = append(e.forced, "create-ext-mb100", "create-ext-mb-prefix", "setext-mb-over")
+		case 2:
+			e.forced = append(e.forced, "pay-mb", "pay-mb-over", "create-ext-mb-over")
 		}
 		if hi%6 == 2 || hi%6 == 5 {
 			// an external id is given up (changed or cleared, the order then cancelled or not)
@@ -1213,6 +1304,14 @@ func (e *c13Env) genOrderPayOp(ctx sdk.Context, view c13View, maxID uint64) (str
 	pickExt := func() string {
 		if r.Intn(10) < 4 {
 			return ""
+		}
+		switch r.Intn(12) {
+		case 0, 1: // multi-byte / invalid UTF-8, at most 100 bytes
+			e.w.Count("ext_ids_non_ascii")
+			return c13MBLegal[r.Intn(len(c13MBLegal))]
+		case 2: // more than 100 bytes (some with at most 100 characters): refused
+			e.w.Count("ext_ids_non_ascii_over_100_bytes")
+			return c13MBOver[r.Intn(len(c13MBOver))]
 		}
 		return c13ExtPool[r.Intn(len(c13ExtPool))]
 	}
@@ -1677,6 +1776,38 @@ func (e *c13Env) genForced(ctx sdk.Context, view c13View, f string) (string, str
 		return "XO (" + t + ")", d, run
 	case "pay-up-source": // a payment whose Source is stored in the upper-case spelling
 		return payCreate(c13Pay{src: e.owners[1].String(), srcUp: true, ext: "upsrc", tgt: e.owners[2].String(), tgtUp: r.Intn(2) == 0, amount: 2})
+	case "create-ext-mb100": // exactly 100 BYTES of two-byte characters (50 characters): accepted
+		if len(e.markets) == 0 {
+			return "", "", nil
+		}
+		e.x100Mkt = e.markets[r.Intn(len(e.markets))]
+		return mkCreate(e.x100Mkt, strings.Repeat("é", 50))
+	case "create-ext-mb-over": // more than 100 bytes in at most 100 characters: must be refused
+		if len(e.markets) == 0 {
+			return "", "", nil
+		}
+		return mkCreate(e.markets[r.Intn(len(e.markets))], []string{strings.Repeat("é", 51), strings.Repeat("字", 34), strings.Repeat("字", 100), strings.Repeat("a", 99) + "é"}[r.Intn(4)])
+	case "create-ext-mb-prefix": // "é" next to the 100-byte id it is a byte prefix of, same market
+		if e.x100Mkt == 0 {
+			return "", "", nil
+		}
+		return mkCreate(e.x100Mkt, []string{"é", "\xc3"}[r.Intn(2)])
+	case "setext-mb-over", "setext-mb": // set-external-id with a multi-byte id over / at the byte limit
+		if len(view.orders) == 0 {
+			return "", "", nil
+		}
+		o := view.orders[r.Intn(len(view.orders))]
+		x := strings.Repeat("é", 60)
+		if f == "setext-mb" {
+			x = strings.Repeat("字", 33) + "a"
+		}
+		return fmt.Sprintf("XO (OSetExt %d %d %s)", o.market, o.id, c13Str(x)), fmt.Sprintf("set-ext m=%d id=%d %q", o.market, o.id, c13Short(x)), func() error {
+			return e.handle(ctx, &exchange.MsgMarketSetOrderExternalIDRequest{Admin: e.admin.String(), MarketId: o.market, OrderId: o.id, ExternalId: x})
+		}
+	case "pay-mb": // payments with multi-byte external ids: 100 bytes (accepted), "é" (its byte prefix)
+		return payCreate(c13Pay{src: e.owners[0].String(), ext: []string{strings.Repeat("é", 50), "é", "字"}[r.Intn(3)], tgt: e.owners[1].String(), amount: 1})
+	case "pay-mb-over": // 102 bytes in 51 characters: refused
+		return payCreate(c13Pay{src: e.owners[0].String(), ext: strings.Repeat("é", 51), tgt: "", amount: 1})
 	case "observe-only": // refused by ValidateBasic and by the model: the step only carries the observation
 		return "XO (OCancel 0)", "observe (cancel of order 0)", func() error {
 			return e.handle(ctx, &exchange.MsgCancelOrderRequest{Signer: e.admin.String(), OrderId: 0})
@@ -1956,6 +2087,12 @@ func c13GenesisCases(t *testing.T, e *c13Env, baseCtx sdk.Context) {
 				o.ext = fmt.Sprintf("%s-%d", c13ExtPool[r.Intn(len(c13ExtPool))], id) // unique
 				if r.Intn(12) == 0 {
 					o.ext = "x" // may be carried twice in one market: InitGenesis panics
+				}
+				if r.Intn(6) == 0 {
+					o.ext = c13MBLegal[6+r.Intn(5)][:90] + fmt.Sprint(id) // multi-byte (cut anywhere), unique
+				}
+				if r.Intn(30) == 0 {
+					o.ext = c13MBOver[r.Intn(len(c13MBOver))] // Validate refuses
 				}
 			}
 			if r.Intn(40) == 0 {
